@@ -15,7 +15,7 @@ ASSUMPTIONS = [
 ]
 
 HOOK_COMMITS = ["aa112f6"]
-FIX_COMMITS = ["536bdea", "2163003", "086d718", "eebbb00", "ae8746e", "813750d"]
+FIX_COMMITS = ["536bdea", "2163003", "086d718", "eebbb00", "ae8746e", "813750d", "4dcfce1"]
 NOT_YET = {}
 
 CFG = {
@@ -28,6 +28,14 @@ CFG = {
         "extra_tier": {"thorough": ["--thorough"]},
         "exhaustive": {"quick": "all face lists of 1..3 oriented triangles over 4 vertices (14424 lists), each under fresh hash seeds, plus random meshes",
                        "thorough": "all face lists of 1..4 triangles over 4 vertices and 1..3 over 5 vertices, plus random meshes"},
+    },
+    "C14": {
+        "cases": {"quick": 480, "thorough": 48000},
+        "level_text": "Refinement theorems: the TriangleFilter model (HashSet as list, any order) refines finite-set algebra for Add/Remove/Keep over a pure per-face predicate; the MeshNearCheck memo is transparent (memoised = un-memoised, for every evaluation order), with the pre-fix memo kept as an order-dependence witness; create_from_indices is faithful. Model tied to the Rust by chains of 1-6 steps repeated under fresh hash seeds.",
+        "level_note": "Trusted: Lean kernel, hand-written model validated by the correspondence run; the geometric per-vertex/per-face tests are parameters of the model (supplied by the harness from parry projection = C02's subject).",
+        "files": ["src/geom3/mesh/filtering.rs", "src/common.rs"],
+        "tol": {"*": 1e-9},
+        "extra_tier": {"thorough": ["--thorough"]},
     },
     "C16": {
         "cases": {"quick": 1600, "thorough": 160000},
